@@ -35,3 +35,12 @@ func VerifPath(m map[uint16]glyph.ID) ([]VerifSegment, error) {
 	}
 	return out, nil
 }
+
+// VerifDecode4 runs the format 4 decoder (identity code mapping).
+func VerifDecode4(in []byte) (map[uint16]glyph.ID, error) {
+	st, err := decodeFormat4(in, nil)
+	if err != nil {
+		return nil, err
+	}
+	return st.(Format4), nil
+}
